@@ -62,6 +62,7 @@ def held_locks(node, fnode):
 
 
 def asserts_locked(f):
+    """locks the function assumes its CALLER holds: `assert self.<lock>.locked()` outside any `with self.<lock>` of its own"""
     out = set()
     for n in walk_local(f.node):
         if isinstance(n, ast.Assert):
@@ -69,8 +70,65 @@ def asserts_locked(f):
                 if isinstance(c, ast.Call) and isinstance(c.func, ast.Attribute) and c.func.attr == "locked":
                     d = dotted(c.func.value)
                     if d and d.startswith("self."):
-                        out.add(d[5:])
+                        own = any(isinstance(p, (ast.With, ast.AsyncWith)) and any(dotted(i.context_expr) == d for i in p.items) for p in ancestors(n, f.node))
+                        if not own:
+                            out.add(d[5:])
     return out
+
+
+def writing_state(fnode, node, table="file_futures"):
+    """'W' / 'N' / None: what the conditions that hold at `node` say about the writing flag (element 0) of a table entry:
+    W = an entry exists and its write is in flight, N = no entry or no write in flight.  The entry may be a local bound from
+    self.<table>.get(k) / self.<table>[k] (or a copy of it) or the subscript itself; conditions may be named by single-assignment locals."""
+    names = set()
+    for _ in range(3):
+        for n in walk_local(fnode):
+            if isinstance(n, ast.Assign) and isinstance(n.targets[0], ast.Name):
+                v = n.value
+                if (isinstance(v, ast.Call) and isinstance(v.func, ast.Attribute) and v.func.attr == "get" and dotted(v.func.value) == f"self.{table}") or \
+                        (isinstance(v, ast.Subscript) and dotted(v.value) == f"self.{table}") or (isinstance(v, ast.Name) and v.id in names):
+                    names.add(n.targets[0].id)
+
+    def is_entry(e):
+        return (isinstance(e, ast.Name) and e.id in names) or (isinstance(e, ast.Subscript) and dotted(e.value) == f"self.{table}")
+
+    def is_flag(e):
+        if isinstance(e, ast.Call) and callee_name(e) == "bool" and len(e.args) == 1:
+            e = e.args[0]
+        return isinstance(e, ast.Subscript) and is_entry(e.value) and isinstance(e.slice, ast.Constant) and e.slice.value == 0
+
+    def none_cmp(e, op):
+        return isinstance(e, ast.Compare) and len(e.ops) == 1 and is_entry(e.left) and isinstance(e.comparators[0], ast.Constant) and e.comparators[0].value is None and isinstance(e.ops[0], op)
+
+    def pred(e, depth=3):
+        if isinstance(e, ast.UnaryOp) and isinstance(e.op, ast.Not):
+            return {"W": "N", "N": "W"}.get(pred(e.operand, depth))
+        if is_flag(e):
+            return "W"
+        if none_cmp(e, ast.Is):
+            return "N"
+        if isinstance(e, ast.BoolOp) and isinstance(e.op, ast.And) and any(is_flag(v) for v in e.values) and all(is_flag(v) or none_cmp(v, ast.IsNot) for v in e.values):
+            return "W"
+        if isinstance(e, ast.BoolOp) and isinstance(e.op, ast.Or) and all(pred(v, depth) == "N" for v in e.values):
+            return "N"
+        if isinstance(e, ast.Name) and depth:
+            d = [a.value for a in walk_local(fnode) if isinstance(a, ast.Assign) and any(isinstance(t, ast.Name) and t.id == e.id for t in a.targets)]
+            if len(d) == 1:
+                return pred(d[0], depth - 1)
+        return None
+    st_ = None
+    for t, pol in path_conditions(node, fnode):
+        w = pred(t)
+        if w is not None:
+            st_ = w if pol else {"W": "N", "N": "W"}[w]
+            continue
+        for e, p_ in split_conj(t, pol):
+            w = pred(e)
+            if w == "W" or (w == "N" and p_):
+                st_ = w if p_ else "N"
+            elif w == "N" and not p_ and none_cmp(e, ast.Is):
+                pass            # `entry is not None` alone says nothing about the flag
+    return st_
 
 
 def field_accesses(f, fields):
@@ -302,7 +360,8 @@ def _accounting(ctx, repo, cg, cfuncs, base_lock, assume, concurrency=True):
                                    dotted(b.value.func.value) == "self" and b.value.args and key is not None and src(b.value.args[0]) == src(key) for b in before)
                     absent = False
                     for e, pol in atoms_at(st, f.node):
-                        if pol and isinstance(e, ast.Compare) and len(e.ops) == 1 and isinstance(e.ops[0], ast.Is) and isinstance(e.comparators[0], ast.Constant) and e.comparators[0].value is None and isinstance(e.left, ast.Name):
+                        if isinstance(e, ast.Compare) and len(e.ops) == 1 and isinstance(e.comparators[0], ast.Constant) and e.comparators[0].value is None and isinstance(e.left, ast.Name) and \
+                                ((pol and isinstance(e.ops[0], ast.Is)) or (not pol and isinstance(e.ops[0], ast.IsNot))):
                             d = [a for a in walk_local(f.node) if isinstance(a, ast.Assign) and any(isinstance(t, ast.Name) and t.id == e.left.id for t in a.targets)]
                             if len(d) == 1 and isinstance(d[0].value, ast.Call) and isinstance(d[0].value.func, ast.Attribute) and d[0].value.func.attr == "get" and \
                                     dotted(d[0].value.func.value) == f"self.{ENT}" and key is not None and d[0].value.args and src(d[0].value.args[0]) == src(key):
@@ -328,20 +387,7 @@ def _accounting(ctx, repo, cg, cfuncs, base_lock, assume, concurrency=True):
                 if sf in cg.resolve_call(f, c) and dotted(c.func.value) == "self":
                     n += 1
                     ctx.instance("C18-R4", f.fq, src(c))
-                    facts = atoms_at(c, f.node)
-                    ok = False
-                    for e, pol in facts:
-                        t = src(e)
-                        if (("[0]" in t) and not pol) or ("info is None" in t and pol):
-                            ok = True
-                    # `if info is None or not info[0]` true-arm: the disjunction itself
-                    for t, pol in path_conditions(c, f.node):
-                        if pol and isinstance(t, ast.BoolOp) and isinstance(t.op, ast.Or) and any("[0]" in src(v) and isinstance(v, ast.UnaryOp) for v in t.values):
-                            ok = True
-                    # `if entry[0]: ... continue` before the call in a loop body
-                    for t, pol in path_conditions(c, f.node):
-                        if not pol and "[0]" in src(t):
-                            ok = True
+                    ok = writing_state(f.node, c) == "N"
                     ctx.ob("C18-R4", f.fq, f"(A2) {sf.name} (total -= entry bytes) is reached only for an entry known to be non-writing", ok, node=c,
                            construct=f"A2 unguarded {sf.name} in {f.name}",
                            msg=f"{f.name} removes and un-accounts an entry without checking its writing flag: an entry whose write is in flight carries a claim that was never added to the total, and its completion then finds the entry gone (assertion failure in the worker, exception in the caller)",
